@@ -16,6 +16,7 @@ import (
 	"github.com/cossacklabs/acra/decryptor/postgresql"
 	"github.com/cossacklabs/acra/utils"
 
+	"verifharness/internal/c04/fakemy"
 	"verifharness/internal/c04/fakepg"
 	"verifharness/internal/core"
 	env "verifharness/internal/envops"
@@ -85,6 +86,8 @@ func init() {
 				bm = &pgproto3.DataRow{Values: [][]byte{[]byte("x")}}
 			case 'C':
 				bm = &pgproto3.CommandComplete{CommandTag: []byte("SELECT 1")}
+			case 'S':
+				bm = &pgproto3.PortalSuspended{}
 			case 'E':
 				bm = &pgproto3.ErrorResponse{Severity: "ERROR", Code: "XX000", Message: "m"}
 			case 'Z':
@@ -186,6 +189,21 @@ func valueOps(r *core.Run) {
 		}
 		r.Do("C04.utf8 " + core.Hex(b))
 	}
+	// serialized containers through the bytea text decoder (the binary-format path of a column without
+	// data type, Lean `decodeEscaped_protect`): containers are not valid UTF-8, yet model and code agree –
+	// both stop at the control byte in the length field – and the outcome is ErrDecodeOctalString
+	for i := 0; i < r.N(30, 600); i++ {
+		kv := env.NewKV(rd, 1, 1)
+		m := rd.Bytes(1 + rd.Intn(300))
+		kind := core.Pick(rd, []string{"struct", "block"})
+		r.Begin("esc-container-"+core.Hex(m[:min(len(m), 12)]), true, "case:codec-container")
+		p, ok := env.Protect(r, kind, kv, m)
+		if !ok {
+			continue
+		}
+		out := r.Do("C04.escaped " + core.Hex(p))
+		r.Check(out == "octalerr", "container-decoded-as-bytea-text", fmt.Sprintf("DecodeEscaped accepted a serialized container (%s): the binary path of an untyped column would hand the detector other bytes than stored", out))
+	}
 }
 
 func hasC1(b []byte) bool {
@@ -248,7 +266,11 @@ func pendingOps(r *core.Run) {
 						for k := rd.Intn(3); k > 0; k-- {
 							evs = append(evs, "D")
 						}
-						evs = append(evs, "C")
+						if rd.Chance(30) {
+							evs = append(evs, "D", "S") // row-limited Execute: the portal is left suspended
+						} else {
+							evs = append(evs, "C")
+						}
 					}
 				case 'f':
 					if !skipping {
@@ -436,6 +458,163 @@ func corpus(r *core.Run) {
 		rs, err := a.C.Simple("insert into t1 (id, note) values (7, 'n') returning id")
 		good := err == nil && len(rs) == 1 && len(rs[0].Fields) == 1 && rs[0].Fields[0].DataTypeOID == 23
 		r.Check(good, "rowdescription-stale-settings", "INSERT … RETURNING id right after a SELECT of a text-typed protected column: the int4 column is described as text (type OID of the earlier statement's setting)")
+		w.Close()
+	}
+	// 7. ON CONFLICT … DO UPDATE SET on an encrypted column, literal and parameter (fixed: forwarded in clear)
+	{
+		r.Begin("corpus-pg-on-conflict", true, "case:corpus")
+		w, a := open()
+		a.C.Simple("insert into t1 (id, data) values (1, 'old')")
+		_, err := a.C.Simple("insert into t1 (id) values (1) on conflict (id) do update set data = 'SECRETMARKER07'")
+		rs, err2 := a.C.Extended(fakepg.Ext{Parse: true, Name: "s", SQL: "insert into t1 (id, note) values ($1, 'n') on conflict (id) do update set data = $2", Bind: true, Params: [][]byte{[]byte("1"), []byte("SECRETMARKER08")}, Execute: true})
+		r.Check(err == nil && err2 == nil && a.Panic == nil && len(rs) > 0 && rs[len(rs)-1].Err == "", "session-broken", fmt.Sprintf("corpus 7: upsert failed (%v, %v, panic %v)", err, err2, a.Panic))
+		r.Check(!bytes.Contains(w.DB.In.Bytes(), []byte("SECRETMARKER0")), "plaintext-at-database", "INSERT … ON CONFLICT (id) DO UPDATE SET data = <value>: the value of the encrypted column reached the database in clear (encryptor/postgresql/queryDataEncryptor.go)")
+		rs, err = a.C.Simple("select data from t1 where id = 1")
+		good := err == nil && len(rs) == 1 && len(rs[0].Rows) == 1 && rs[0].Rows[0][0] != nil
+		if good {
+			dec, _ := fakepg.DecodeByteaText(*rs[0].Rows[0][0])
+			good = string(dec) == "SECRETMARKER08"
+		}
+		r.Check(good, "owner-read-mismatch", "corpus 7: the owner does not read back the value assigned by ON CONFLICT DO UPDATE")
+		w.Close()
+	}
+	myTabs := []fakemy.TableDef{
+		{Name: "t1", Cols: []fakemy.Column{{Name: "id", Type: fakemy.TypeLong}, {Name: "data", Type: fakemy.TypeBlob}, {Name: "note", Type: fakemy.TypeVarString}}},
+		{Name: "t2", Cols: []fakemy.Column{{Name: "id", Type: fakemy.TypeLong}, {Name: "data", Type: fakemy.TypeBlob}, {Name: "note", Type: fakemy.TypeVarString}}},
+	}
+	myOpen := func() (*MyWorld, *MySess) {
+		w, err := NewMyWorld(corpusYAML, ks, myTabs, rd.Bytes(1<<14))
+		if err != nil {
+			panic("harness: " + err.Error())
+		}
+		a, err := w.Open("alice", 0)
+		if err != nil {
+			panic("harness: " + err.Error())
+		}
+		return w, a
+	}
+	// 8. MySQL: parameter assigned in ON DUPLICATE KEY UPDATE (fixed: forwarded in clear)
+	{
+		r.Begin("corpus-my-on-duplicate-parameter", true, "case:corpus")
+		w, a := myOpen()
+		a.C.Query("insert into t1 (id, data) values (1, 'old')")
+		st, _, err := a.C.Prepare("insert into t1 (id, note) values (?, 'n') on duplicate key update data = ?")
+		var res *fakemy.Result
+		if err == nil && st != nil {
+			res, err = a.C.Execute(st, []fakemy.Param{{Type: fakemy.TypeLong, Data: []byte("1")}, {Type: fakemy.TypeVarString, Data: []byte("SECRETMARKER09")}}, true)
+		}
+		r.Check(err == nil && res != nil && res.Err == "", "session-broken", fmt.Sprintf("corpus 8: prepared upsert failed (%v %v, panic %v)", err, res, a.panicked()))
+		r.Check(!bytes.Contains(w.DB.In.Bytes(), []byte("SECRETMARKER09")), "plaintext-at-database", fmt.Sprintf("COM_STMT_EXECUTE parameter assigned in ON DUPLICATE KEY UPDATE to an encrypted column reached the database in clear (encryptor/mysql/queryDataEncryptor.go encryptInsertValues) [prepares %q, notes %v, rnd pos %d]", w.DB.Prepares, w.DB.Notes, w.Rnd.Pos()))
+		res, err = a.C.Query("select data from t1 where id = 1")
+		r.Check(err == nil && res.Err == "" && len(res.Rows) == 1 && res.Rows[0][0] != nil && string(*res.Rows[0][0]) == "SECRETMARKER09", "owner-read-mismatch", "corpus 8: the owner does not read back the value assigned by ON DUPLICATE KEY UPDATE")
+		w.Close()
+	}
+	// 8b. a command sent the moment the previous response arrives keeps its response handler (fixed: the
+	// database-side goroutine reset the handler after writing the response; the COM_STMT_PREPARE_OK was relayed
+	// unregistered and the parameters of the COM_STMT_EXECUTE were forwarded in clear – about 1 free-running attempt in 7)
+	{
+		r.Begin("corpus-my-response-handler-race", true, "case:corpus")
+		leaked, broken := 0, 0
+		for k := 0; k < 3; k++ {
+			// gated schedule: the database-side goroutine is held after each packet it wrote to the client until
+			// the client-side goroutine has handled the client's next command – the order in which the defect shows
+			w, err := NewMyWorld(corpusYAML, ks, myTabs, rd.Bytes(1<<14))
+			if err != nil {
+				panic("harness: " + err.Error())
+			}
+			w.Gated = true
+			a, err := w.Open("alice", 0)
+			if err != nil {
+				panic("harness: " + err.Error())
+			}
+			a.C.Query("insert into t1 (id, data) values (1, 'old')")
+			st, _, err := a.C.Prepare("insert into t1 (id, data) values (?, ?)")
+			if err == nil && st != nil {
+				_, err = a.C.Execute(st, []fakemy.Param{{Type: fakemy.TypeLong, Data: []byte("2")}, {Type: fakemy.TypeVarString, Data: []byte("SECRETMARKER13")}}, true)
+			}
+			if err != nil {
+				broken++
+			}
+			if bytes.Contains(w.DB.In.Bytes(), []byte("SECRETMARKER13")) {
+				leaked++
+			}
+			// a result set right after a prepared statement without parameters and columns: relayed by the right handler
+			if err == nil {
+				if st2, _, err2 := a.C.Prepare("insert into t1 (id, data) values (3, 'x')"); err2 == nil && st2 != nil {
+					a.C.Execute(st2, nil, true)
+				}
+				res, err2 := a.C.Query("select data from t1 where id = 2")
+				if err2 != nil || res.Err != "" || len(res.Rows) != 1 || res.Rows[0][0] == nil || string(*res.Rows[0][0]) != "SECRETMARKER13" {
+					broken++
+				}
+			}
+			w.Close()
+		}
+		r.Check(broken == 0, "owner-read-mismatch", fmt.Sprintf("corpus 8b: %d of 3 gated sessions broke or delivered an undecrypted result", broken))
+		r.Check(leaked == 0, "plaintext-at-database", fmt.Sprintf("COM_STMT_PREPARE sent right after the response of a COM_QUERY: in %d of 3 gated sessions the statement was not registered and the COM_STMT_EXECUTE parameter of the encrypted column reached the database in clear (decryptor/mysql/response_proxy.go: handler reset after the response was written)", leaked))
+	}
+	// 8c. a text row whose first column is the empty string (fixed: taken for the end of the result set, the rows
+	// were relayed undecrypted)
+	{
+		r.Begin("corpus-my-text-row-leading-empty", true, "case:corpus")
+		w, a := myOpen()
+		a.C.Query("insert into t1 (id, data, note) values (1, 'SECRETMARKER14', '')")
+		a.C.Query("insert into t1 (id, data, note) values (2, 'SECRETMARKER15', 'x')")
+		res, err := a.C.Query("select note, data from t1")
+		good := err == nil && res.Err == "" && len(res.Rows) == 2 && res.Rows[0][1] != nil && res.Rows[1][1] != nil &&
+			string(*res.Rows[0][1]) == "SECRETMARKER14" && string(*res.Rows[1][1]) == "SECRETMARKER15"
+		r.Check(good, "owner-read-mismatch", "select note, data from t1 with note = '' in the first row: the text row that begins with an empty string ends the result set for the proxy, the owner reads ciphertext (decryptor/mysql/response_proxy.go QueryResponseHandler)")
+		w.Close()
+	}
+	// 8d. KNOWN: the placeholder settings of an earlier prepared statement rewrite the parameter definitions of a later one
+	{
+		r.Begin("corpus-my-paramdef-stale-settings", true, "case:corpus")
+		w, a := myOpen()
+		st, _, err := a.C.Prepare("insert into t2 (id, data) values (?, ?)")
+		if err == nil && st != nil {
+			a.C.Execute(st, []fakemy.Param{{Type: fakemy.TypeLong, Data: []byte("1")}, {Type: fakemy.TypeVarString, Data: []byte("TYPEDVALUE0004")}}, true)
+		}
+		cin0, _ := a.C.Marks()
+		dout0 := w.DB.Out.Len()
+		_, _, err = a.C.Prepare("select note from t1 where id = ? and note = ?")
+		cin1, _ := a.C.Marks()
+		r.Check(err == nil && bytes.Equal(a.C.In.Bytes()[cin0:cin1], w.DB.Out.Bytes()[dout0:]), "my-paramdef-stale-settings", "COM_STMT_PREPARE of a statement without protected parameters after a prepared INSERT into a data_type column: the definition of the parameter with the same index comes back rewritten")
+		w.Close()
+	}
+	// 8e. KNOWN: re-execution of a prepared statement without repeating the parameter types
+	{
+		r.Begin("corpus-my-execute-rebind-flag-0", true, "case:corpus")
+		w, a := myOpen()
+		st, _, err := a.C.Prepare("insert into t1 (id, data) values (?, ?)")
+		ok := false
+		if err == nil && st != nil {
+			a.C.Execute(st, []fakemy.Param{{Type: fakemy.TypeLong, Data: []byte("1")}, {Type: fakemy.TypeVarString, Data: []byte("SECRETMARKER16")}}, true)
+			res, err := a.C.Execute(st, []fakemy.Param{{Type: fakemy.TypeLong, Data: []byte("2")}, {Type: fakemy.TypeVarString, Data: []byte("SECRETMARKER17")}}, false)
+			ok = err == nil && res != nil && res.Err == "" && a.panicked() == nil
+		}
+		r.Check(!bytes.Contains(w.DB.In.Bytes(), []byte("SECRETMARKER1")), "plaintext-at-database", "corpus 8e: re-executed prepared INSERT: plaintext reached the database")
+		r.Check(ok, "my-execute-rebind-flag-0", "second COM_STMT_EXECUTE of a prepared INSERT with new_params_bind_flag = 0: the proxy panics on the nil bound values and drops the connection")
+		w.Close()
+	}
+	// 9. KNOWN: INSERT … SELECT is not analysed (both front ends)
+	{
+		r.Begin("corpus-insert-select", true, "case:corpus")
+		w, a := open()
+		a.C.Simple("insert into t1 (id, data) select 2, 'SECRETMARKER10'")
+		r.Check(!bytes.Contains(w.DB.In.Bytes(), []byte("SECRETMARKER10")), "insert-select-plaintext", "PostgreSQL: insert into t1 (id, data) select 2, '<value>' stores the value of the encrypted column in clear")
+		w.Close()
+		mw, ma := myOpen()
+		ma.C.Query("insert into t1 (id, data) select 2, 'SECRETMARKER11'")
+		r.Check(!bytes.Contains(mw.DB.In.Bytes(), []byte("SECRETMARKER11")), "insert-select-plaintext", "MySQL: insert into t1 (id, data) select 2, '<value>' stores the value of the encrypted column in clear")
+		mw.Close()
+	}
+	// 10. KNOWN: PostgreSQL multi-column assignment
+	{
+		r.Begin("corpus-pg-update-multiassign", true, "case:corpus")
+		w, a := open()
+		a.C.Simple("insert into t1 (id, data) values (1, 'old')")
+		a.C.Simple("update t1 set (data, note) = ('SECRETMARKER12', 'n') where id = 1")
+		r.Check(!bytes.Contains(w.DB.In.Bytes(), []byte("SECRETMARKER12")), "pg-update-multiassign-plaintext", "update t1 set (data, note) = ('<value>', 'n') stores the value of the encrypted column in clear")
 		w.Close()
 	}
 }
